@@ -153,15 +153,24 @@ func c15Op(c *WCase, res *WResult) {
 			out.N, out.Hit = rd.Calls, rd.Hit
 			out.Err = errS(err)
 			if rd.Hit && err == nil {
-				// the image object exists: nothing it reports may be wrong
+				// "the image reader fails at any read ⇒ the operation returns an error"
 				ref, _ := authenticode.Parse(bytes.NewReader(img))
+				rs, _ := ref.Signatures()
+				bs, _ := bin.Signatures()
+				kind := "success-reported"
 				if h := bin.Hash(crypto.SHA256); h != nil && !bytes.Equal(h, ref.Hash(crypto.SHA256)) {
-					bad("wrong-value", "Parse succeeded although read %d failed, and the object reports a wrong digest", k)
-				} else if !persistent {
-					// a transient fault on a read whose result is discarded may legitimately go unnoticed
-				} else {
-					bad("success-reported", "Parse reported success although every read from #%d on failed", k)
+					kind = "success-reported-and-wrong-digest"
+				} else if len(rs) != len(bs) || !bytes.Equal(ref.Bytes(), bin.Bytes()) {
+					kind = "success-reported-and-wrong-content"
 				}
+				// One exception, written down in DESIGN §C15: a single read that delivers part
+				// of the data *together with* its error may satisfy its consumer (io.ReadAtLeast
+				// drops the error once enough bytes arrived — standard io semantics, also inside
+				// debug/pe); then success is acceptable iff nothing the object reports is wrong.
+				if mode == "partial-error" && !persistent && kind == "success-reported" {
+					break
+				}
+				bad(kind, "Parse reported success although read %d failed (%s)", k, mode)
 			}
 			break
 		}
